@@ -2,7 +2,7 @@
 rule/assumptions/exhaustive feed the evidence file."""
 
 VALUE_ASPECTS = {"value", "unexpected-error", "error-expected", "panic", "build", "tree", "nil-nil"}
-ORDER_ASPECTS = {"order"}
+ORDER_ASPECTS = {"order", "tree"}   # tree: positions not unique / not increasing, wrong parent - what "document order" rests on
 
 BASE_ASSUME = [
     "TLC 1.8.0 and the CommunityModules Json/IOUtils/SequencesExt modules are correct",
